@@ -48,7 +48,7 @@ def vi_run(ref, g, eps, test, ks, V0, marg=None):
 
 def rvi_run(ref, eps, ks, V0, marg=None):
     g = F(1)
-    V, it, gain, out = list(V0), 0, F(0), []
+    V, it, gain, out = list(V0), 0, V0[-1], []
     for k in ks:
         conv = False
         for _ in range(k):
